@@ -260,8 +260,20 @@ func TestC19Reconcile(t *testing.T) {
 		for i := rapid.IntRange(0, 3).Draw(rt, "nprobes"); i > 0; i-- {
 			c.Probes = append(c.Probes, rapid.IntRange(0, len(c19Probes)-1).Draw(rt, "probe"))
 		}
-		for i := rapid.IntRange(0, 2).Draw(rt, "nmap"); i > 0; i-- {
-			c.Mappings = append(c.Mappings, [2]string{rapid.SampledFrom([]string{"Available", "Ready", ""}).Draw(rt, "msrc"), rapid.SampledFrom([]string{"my/Available", "x", ""}).Draw(rt, "mdst")})
+		for i := rapid.IntRange(0, 3).Draw(rt, "nmap"); i > 0; i-- {
+			c.Mappings = append(c.Mappings, [2]string{rapid.SampledFrom([]string{"Available", "Ready", ""}).Draw(rt, "msrc"), rapid.SampledFrom([]string{"my/Available", "my/Ready", "other.io/Up", "x", ""}).Draw(rt, "mdst")})
+		}
+		if c.Kind != "template" && rapid.IntRange(0, 3).Draw(rt, "wellformed") == 0 {
+			// a well-formed workload status with several conditions, each mapped (some twice): the owner's own status then holds
+			// several mapped conditions, which every later pass deletes and writes again
+			c.Status = map[string]any{"observedGeneration": int64(1), "conditions": []any{
+				map[string]any{"type": "Available", "status": "True", "reason": "R", "message": "m", "observedGeneration": int64(1)},
+				map[string]any{"type": "Ready", "status": rapid.SampledFrom([]string{"True", "False"}).Draw(rt, "ready"), "reason": "R", "message": "m", "observedGeneration": int64(1)},
+			}}
+			c.Mappings = [][2]string{{"Available", "my/Available"}, {"Ready", "my/Ready"}}
+			if rapid.Bool().Draw(rt, "third") {
+				c.Mappings = append(c.Mappings, [2]string{"Available", "other.io/Up"})
+			}
 		}
 		if c.Kind == "template" {
 			for i := rapid.IntRange(0, 3).Draw(rt, "nitems"); i > 0; i-- {
